@@ -160,7 +160,18 @@ func main() {
 			}
 		}()
 	}
+	// a hung scenario leaves its goroutines behind (they may spin): after a few of them the rest of the run would
+	// only be slower and say nothing new -- stop feeding; the hang events recorded so far are the verdict
+	const maxHangs = 8
+	stopped := false
 	for i := range scen {
+		hmu.Lock()
+		stop := hangs >= maxHangs
+		hmu.Unlock()
+		if stop {
+			stopped = true
+			break
+		}
 		jobs <- i
 	}
 	close(jobs)
@@ -173,6 +184,9 @@ func main() {
 	bw := bufio.NewWriterSize(out, 1<<20)
 	nev := 0
 	for i, evs := range results {
+		if stopped && len(evs) == 0 {
+			continue // not run
+		}
 		if len(evs) == 0 || evs[0].Ev != "reset" {
 			fmt.Fprintf(os.Stderr, "scenario %d produced no reset event\n", i+1)
 			os.Exit(2)
